@@ -302,24 +302,38 @@ def ob_shapes(ctx, H, bodies):
     nh = ctx.choose(1, H, 'hunks')
     ig = bool(ctx.choose(0, 1, 'ignore_garbage'))
     lines = []
+    kinds = []
+    damage = ctx.pick('damage', ['none', 'none', 'drop-last-line', 'header-inside', 'flip-kind', 'opposed-counts'])
     for h in range(nh):
         body = ctx.pick('body%d' % h, bodies)
         o = sum(1 for m in body if m in ' -')
         n = sum(1 for m in body if m in ' +')
+        if damage == 'opposed-counts' and h == ctx.choose(0, nh - 1, 'damaged-hunk') and min(o, n) >= 1:
+            # the two counts of one header are wrong in opposite directions (their sum is still the body's)
+            o, n = (o + 1, n - 1) if ctx.choose(0, 1, 'direction') else (o - 1, n + 1)
         if ig and ctx.choose(0, 1, 'garbage%d' % h):
             g = sym_bytes(ctx, 'g%d' % h, 2)
             ctx.assume(g.el[0] != 64)
             lines.append(g)
+            kinds.append('g')
         start = _digits(ctx, 's%d' % h, ctx.choose(1, 2, 'startlen%d' % h))
         hdr = b'@@ -' + start + (b',%d' % o if (o != 1 or ctx.choose(0, 1, 'oc%d' % h)) else b'') + b' +' + start + \
             (b',%d' % n if (n != 1 or ctx.choose(0, 1, 'nc%d' % h)) else b'') + b' @@'
         lines.append(hdr)
+        kinds.append('@')
         for k, m in enumerate(body):
+            kinds.append(m)
             if m == 'M':
                 lines.append(MARKER)
             else:
                 lines.append(m.encode() + sym_bytes(ctx, 'p%d_%d' % (h, k), 1))
-    damage = ctx.pick('damage', ['none', 'none', 'drop-last-line', 'header-inside'])
+    if damage == 'flip-kind':
+        # one changed line turns into the other kind (a "-" line into "+" or the reverse): one side is then short by
+        # as much as the other is long
+        idx = [i for i, kd in enumerate(kinds) if kd in '-+']
+        i = idx[ctx.choose(0, len(idx) - 1, 'flipped-line')] if idx else None
+        if i is not None:
+            lines[i] = (b'+' if kinds[i] == '-' else b'-') + lines[i][1:]
     if damage == 'drop-last-line':
         lines = lines[:-1]
     elif damage == 'header-inside' and len(lines) > 2:
